@@ -386,9 +386,13 @@ def reuse_body(case, ctx):
         with warnings.catch_warnings():
             warnings.simplefilter("ignore")
             outer = cv2.split(xb)
-            got = [next(outer)]
+            got = [tuple(np.array(a, copy=True) for a in next(outer))]
             run(cv2, xa)
-            got += list(outer)
+            for tr, te in outer:
+                got.append((np.array(tr, copy=True), np.array(te, copy=True)))
+                # the caller owns what it was handed: overwriting it (here with the first sample's index) may not disturb the splits still to come
+                tr[...] = 0
+                te[...] = 0
         ctx.check(len(got) == len(fresh), "%s: %d splits instead of %d when another split() of the same object runs in between", what, len(got), len(fresh))
         for k, (f, r) in enumerate(zip(fresh, got)):
             ctx.check(np.array_equal(f[0], np.array(r[0])) and np.array_equal(f[1], np.array(r[1])),
